@@ -50,24 +50,52 @@ def parts(s):
     return out
 
 
+def atoms(s):
+    """rendered text (str or SymStr) -> list of atoms: code points (int / SymInt) and holes (spec, value)"""
+    items = list(s.items) if hasattr(s, "items") else [ord(c) for c in s]
+    holes = getattr(core._ctx, "holes", []) if core._ctx is not None else []
+    out, i = [], 0
+    while i < len(items):
+        if isinstance(items[i], int) and items[i] == 0:
+            j = i + 1
+            while j < len(items) and isinstance(items[j], int) and 48 <= items[j] <= 57:
+                j += 1
+            if j < len(items) and isinstance(items[j], int) and items[j] == 0 and j > i + 1 and holes:
+                h = holes[int("".join(chr(c) for c in items[i + 1:j]))]
+                if type(h[1]).__name__ == "SymStr" and h[0] == "d":
+                    out.extend(h[1].items)    # str()/format() of a proxy string: its characters
+                else:
+                    out.append(h)
+                i = j + 1
+                continue
+        out.append(items[i])
+        i += 1
+    return out
+
+
 def has_tokens(s):
     return isinstance(s, str) and "\x00" in s
 
 
 def text_eq(a, b):
     """dual: equality of two rendered texts (SymBool / bool)"""
-    if not isinstance(a, str) or not isinstance(b, str):
+    sa, sb = hasattr(a, "items"), hasattr(b, "items")
+    if not (isinstance(a, str) or sa) or not (isinstance(b, str) or sb):
         return False
-    if not has_tokens(a) and not has_tokens(b):
+    if not sa and not sb and not has_tokens(a) and not has_tokens(b):
         return a == b
-    pa, pb = parts(a), parts(b)
+    pa, pb = atoms(a), atoms(b)
     if len(pa) != len(pb):
         return False
     conj = []
     for x, y in zip(pa, pb):
-        if isinstance(x, str) or isinstance(y, str):
-            if x != y:
+        if not isinstance(x, tuple) or not isinstance(y, tuple):
+            if isinstance(x, tuple) or isinstance(y, tuple):
                 return False
+            e = x == y
+            if e is False:
+                return False
+            conj.append(e)
             continue
         if x[0] != y[0]:
             return False
@@ -98,10 +126,13 @@ def fmt_percent(fmt, args):
             if isinstance(a, core.SymBool):
                 a = core.SymInt.lift(a)
             out.append(tok(spec, a))
+        elif hasattr(a, "items") and type(a).__name__ == "SymStr" and m.group(0) == "%s":
+            out.append(a)                     # a proxy string is spliced in as it is
         else:
             out.append(m.group(0) % (a,))
     out.append(fmt[pos:])
-    return "".join(out)
+    from .strings import join_any
+    return join_any("", out)
 
 
 def fmt(spec, value):
